@@ -338,6 +338,8 @@ class ForceTorque3D(Block):
         return len(self._tracks)
 
     def __eq__(self, other) -> bool:
+        if not isinstance(other, ForceTorque3D):
+            return False
         buff1 = BytesIO()
         buff2 = BytesIO()
         self._write(buff1)
